@@ -157,6 +157,50 @@ def sample_shape_for(rng, clsname, nchan=None, extra=None):
     return (nchan,) + tuple(extra)
 
 
+AGING = True
+
+
+def _side_rng(rng):
+    """A generator derived from (not advancing) the state of ``rng``."""
+    st = rng.bit_generator.state["state"]
+    return np.random.default_rng([int(st["state"]) % (1 << 63), int(st["inc"]) % (1 << 63), 77])
+
+
+def _aged(cls, clsname, xin, kw, srng):
+    """The same signal reached by another history: built with other attribute values, every derived public attribute read once
+    (so anything the object memoises has been computed), then brought to the wanted values through the public setters."""
+    from . import probes
+    with probes.quiet():
+        decoy = dict(kw)
+        k = float(srng.choice([2.0, 0.25, 3.0]))
+        decoy["sample_rate"] = kw["sample_rate"] * k
+        if kw.get("start_time") is not None:
+            decoy["start_time"] = kw["start_time"] + float(srng.uniform(-5, 5)) * u.s if srng.random() < 0.8 else None
+        if "chan_bw" in decoy:
+            decoy["chan_bw"] = kw["chan_bw"] * float(srng.choice([2.0, 0.5]))
+        if "center_freq" in decoy:
+            bw = decoy.get("chan_bw", decoy["sample_rate"])
+            decoy["center_freq"] = kw["center_freq"] + int(srng.integers(1, 9)) * bw
+            decoy["freq_align"] = {"bottom": "top", "top": "center", "center": "bottom"}[kw["freq_align"]]
+        if "pol_type" in decoy:
+            decoy["pol_type"] = "circular" if kw["pol_type"] == "linear" else "linear"
+        sig = cls(xin, **decoy)
+        for name in ("dt", "time_length", "stop_time", "shape", "sample_shape", "axes_labels", "nchan", "bandwidth", "max_freq", "min_freq",
+                     "channel_freqs", "freq_align", "center_freq", "chan_bw", "pol_type", "meta", "dtype", "ndim"):
+            try:
+                getattr(sig, name)
+            except AttributeError:
+                pass
+        repr(sig)
+        str(sig)
+        names = [n for n in ("sample_rate", "start_time", "chan_bw", "center_freq", "freq_align", "pol_type") if n in kw]
+        if clsname in BASEBAND:
+            names.append("chan_bw")
+        for n in srng.permutation(names):
+            setattr(sig, n, kw["sample_rate"] if (n == "chan_bw" and clsname in BASEBAND) else kw[n])
+        return sig
+
+
 def make_signal(rng, clsname, n, *, nchan=None, extra=None, dtype=None, rate=None, start="rand",
                 dask=False, chunks=None, time_chunked=False, align=None, fc=None, chan_bw=None,
                 pol=None, meta="rand", data_kind="normal", mem=None, data=None):
@@ -200,8 +244,12 @@ def make_signal(rng, clsname, n, *, nchan=None, extra=None, dtype=None, rate=Non
     if dask:
         ch = chunks if chunks is not None else rand_chunks(rng, x.shape, time_chunked)
         xin = da.from_array(x, chunks=ch)
-    sig = cls(xin, **kw)
-    desc = {"cls": clsname, "shape": list(x.shape), "dtype": str(dtype), "rate": str(rate),
+    aged = AGING and _side_rng(rng).random() < 0.2
+    if aged:
+        sig = _aged(cls, clsname, xin, kw, _side_rng(rng))
+    else:
+        sig = cls(xin, **kw)
+    desc = {"cls": clsname, "aged": bool(aged), "shape": list(x.shape), "dtype": str(dtype), "rate": str(rate),
             "start": None if start is None else f"{start.scale}:{start.isot}",
             "dask": bool(dask), "mem": memkind}
     for k in ("center_freq", "chan_bw", "freq_align", "pol_type"):
